@@ -35,7 +35,7 @@ SIGNED_INT = {"spif_memidx_t", "spif_stridx_t", "spif_ustridx_t", "spif_listidx_
               "short", "spif_int64_t", "spif_int16_t", "spif_int8_t"}
 UNSIGNED_INT = {"size_t", "unsigned long", "unsigned short", "unsigned char", "unsigned int", "spif_uint8_t", "spif_uint32_t",
                 "spif_sockport_t", "spif_uint16_t", "spif_uint64_t"}
-VLETTER = {"mid": "m", "zero": "z", "neg": "n", "allnull": "a"}
+VLETTER = {"mid": "m", "zero": "z", "neg": "n", "allnull": "a", "nullslots": "s", "prelude": "p"}
 
 
 def int_kind(t, n):
@@ -54,6 +54,10 @@ def variants_of(row):
         v.append("neg")
     if row.get("allnull"):
         v.append("allnull")
+    if row.get("haslist"):
+        v.append("nullslots")
+    if row.get("retchars"):
+        v.append("prelude")
     return v
 
 
@@ -96,7 +100,7 @@ def factory(row, t, n):
               "ctx_handler_t": "ng_ctx_handler", "spifconf_func_ptr_t": "ng_conf_builtin", "char **": "ng_argv()",
               "spif_ptr_t": "(spif_ptr_t) ng_bytes()", "unsigned char": "1",
               "void *": "(void *) ng_bytes()", "const void *": "(const void *) ng_bytes()", "spif_char_t": "'a'", "size_t": "4",
-              "spif_uint8_t": "1", "unsigned short": "80", "spif_sockport_t": "80", "long": "10", "unsigned long": "10",
+              "spif_uint8_t": "1", "unsigned short": "4", "spif_sockport_t": "80", "long": "10", "unsigned long": "10",
               "spif_int32_t": "2", "spif_stridx_t": "1", "spif_ustridx_t": "1", "spif_memidx_t": "1", "spif_listidx_t": "1",
               "spif_bool_t": "TRUE", "double": "1.0", "char": "'a'", "const char": "'a'", "unsigned int": "1", "spif_uint32_t": "1"}
     if t in CHAR_TYPES:
@@ -140,6 +144,8 @@ def gen_case(row, variant="mid"):
     ret = ctype(row["ret"])
     lines = ["static void case_%d_%s(void) {   /* %s  %s  variant %s */" % (row["id"], VLETTER[variant], row["key"], row["func"], variant)]
     nulls = set()
+    if variant == "nullslots":
+        lines.append("    ng_nullslots = 1;")
     for k, (t, n) in enumerate(ps):
         ik = int_kind(raw[k][0], n)
         if k == row["pos"] or (variant == "allnull" and ik is None and is_pointer_type(t)):
@@ -152,13 +158,20 @@ def gen_case(row, variant="mid"):
         else:
             val = factory(row, t, n)
         lines.append("    %s a%d = %s;" % (t, k, val))
-    snaps = [(k, snapper(t)) for k, (t, n) in enumerate(ps) if k not in nulls and snapper(t)]
-    args = ", ".join("a%d" % k for k in range(len(ps)))
-    if row["via"] == "direct":
-        call = "%s(%s)" % (row["func"], args)
-    else:
-        call = "((%s (*)(%s)) %s)(%s)" % (ret, ", ".join(t for t, n in ps) or "void", accessor(row), args)
-    lines.append("    ng_snap_begin(0);" + "".join(" %s(a%d);" % (s, k) for k, s in snaps))
+    snaps = [("a%d" % k, snapper(t)) for k, (t, n) in enumerate(ps) if k not in nulls and snapper(t)]
+
+    def call_of(prefix):
+        args = ", ".join("%s%d" % (prefix, k) for k in range(len(ps)))
+        if row["via"] == "direct":
+            return "%s(%s)" % (row["func"], args)
+        return "((%s (*)(%s)) %s)(%s)" % (ret, ", ".join(t for t, n in ps) or "void", accessor(row), args)
+    if variant == "prelude":            # an earlier VALID call of the same function; its result is re-read after the refused call
+        for k, (t, n) in enumerate(ps):
+            lines.append("    %s b%d = %s;" % (t, k, factory(row, t, n)))
+        lines.append("    %s r0 = %s;" % (ret, call_of("b")))
+        snaps.append(("r0", "ng_snap_chars"))
+    call = call_of("a")
+    lines.append("    ng_snap_begin(0);" + "".join(" %s(%s);" % (s, k) for k, s in snaps))
     if ret == "void":
         lines.append("    NG_CALL_BEGIN(); %s; NG_CALL_END();" % call)
         lines.append("    ng_rv_void();")
@@ -178,7 +191,7 @@ def gen_case(row, variant="mid"):
             lines.append("      ng_rv_typename((const char *) rv); }")
         else:
             lines.append("      ng_rv_ptr((const void *) rv); }")
-    lines.append("    ng_snap_begin(1);" + "".join(" %s(a%d);" % (s, k) for k, s in snaps))
+    lines.append("    ng_snap_begin(1);" + "".join(" %s(%s);" % (s, k) for k, s in snaps))
     lines.append("}")
     return "\n".join(lines)
 
@@ -212,9 +225,9 @@ def load_table():
     if n != len(rows):
         raise Broken("NullGuardTable.tla has %d rows, its JSON twin %d" % (n, len(rows)))
     for r in rows:
-        if '[id |-> %d, key |-> "%s", fail |-> "%s", claimed |-> %s, guard |-> "%s", nint |-> %d, nsigned |-> %d, allnull |-> "%s"]' % (
-                r["id"], r["key"], r["fail"] or "NONE", "TRUE" if r["claimed"] else "FALSE", r["guard"] or "none", r["nint"], r["nsigned"],
-                r["allnull"] or "NONE") not in twin:
+        if '[id |-> %d, key |-> "%s", fail |-> "%s", claimed |-> %s, guard |-> "%s", nint |-> %d, nsigned |-> %d, allnull |-> "%s", retchars |-> %s, haslist |-> %s]' % (
+                r["id"], r["key"], r["fail"] or "NONE", "TRUE" if r["claimed"] else "FALSE", (r["guard"] or "none").split(" ")[0], r["nint"], r["nsigned"],
+                r["allnull"] or "NONE", "TRUE" if r["retchars"] else "FALSE", "TRUE" if r["haslist"] else "FALSE") not in twin:
             raise Broken("row %d (%s) differs between NullGuardTable.tla and its JSON twin" % (r["id"], r["key"]))
     return rows
 
@@ -381,7 +394,8 @@ def run(ctx):
         if describe(e2) != describe(e):
             raise Broken("case %s at level %d does not repeat: %s / %s" % (byid[e["row"]]["key"], e["level"], describe(e), describe(e2)))
         row = byid[e["row"]]
-        vtag = {"mid": "", "zero": " ints=0", "neg": " ints=-1", "allnull": " all-pointers-NULL"}[e["variant"]]
+        vtag = {"mid": "", "zero": " ints=0", "neg": " ints=-1", "allnull": " all-pointers-NULL", "nullslots": " lists-with-NULL-slot",
+                "prelude": " after-a-valid-call"}[e["variant"]]
         vtag += env_class(e["env"])
         key = "%s%s level%s %s" % (row["key"], vtag, "=0" if e["level"] == 0 else (">=1" if e["level"] == 1 else ">=2"), failure_class(e, row))
         what = ("%s (%s, owner %s) with NULL for parameter %d '%s'%s at runtime level %d: %s; contract: %s%s. %s" % (
